@@ -68,6 +68,11 @@ def gen_worlds(rng, n):
                           "invocations": rng.randint(2, 4)})
         if rng.random() < 0.3:
             f["scheduler_policy"] = rng.choice(["best", "worst", "random", "max"])
+        if rng.random() < 0.15:
+            f["random_seed"] = rng.choice([0, 0, 1, 2 ** 31 - 1, 2 ** 32 - 1])      # boundary seeds (0 is a legal seed)
+        # some worlds with replicas of one description (--replication_factor): replicas share the description only
+        if rng.random() < 0.2:
+            f["replication_factor"] = rng.choice([2, 3])
         out.append(w)
     return out
 
